@@ -17,6 +17,8 @@ enum Obs {
     Ok(Vec<u8>),
     Length,
     Char(char),
+    /// an error kind this harness does not know (the enum may grow); never what the rule asks for
+    UnknownError,
 }
 
 fn obs(r: Result<NormalizedString, NormalizedStringError>) -> Obs {
@@ -24,6 +26,8 @@ fn obs(r: Result<NormalizedString, NormalizedStringError>) -> Obs {
         Ok(n) => Obs::Ok(n.as_ref().as_bytes().to_vec()),
         Err(NormalizedStringError::StringTooLong) => Obs::Length,
         Err(NormalizedStringError::CharacterNotAllowed(c)) => Obs::Char(c),
+        #[allow(unreachable_patterns)]
+        Err(_) => Obs::UnknownError,
     }
 }
 fn want(s: &str) -> Obs {
@@ -115,7 +119,7 @@ fn check_fast(report: &Report, s: &str) -> u8 {
     match w {
         Obs::Ok(_) => 0,
         Obs::Length => 1,
-        Obs::Char(_) => 2,
+        Obs::Char(_) | Obs::UnknownError => 2,
     }
 }
 
@@ -130,6 +134,8 @@ pub fn check_full(report: &Report, s: &str) {
         Ok(n) => Obs::Ok(n.as_ref().as_bytes().to_vec()),
         Err(NormalizedStringError::StringTooLong) => Obs::Length,
         Err(NormalizedStringError::CharacterNotAllowed(c)) => Obs::Char(*c),
+        #[allow(unreachable_patterns)]
+        Err(_) => Obs::UnknownError,
     };
     let others: Vec<(&str, Result<Obs, String>)> = vec![
         ("from_str", catch(|| obs(NormalizedString::from_str(s)))),
